@@ -241,6 +241,8 @@ def NormalizedChangeOverGeneration(tolerance=1e-4, generations=10):
         if lg <= gens: return info(null)
         if (hist[-gens] == hist[-1]): return info(doc)
         diff = tolerance*(abs(hist[-gens])+abs(hist[-1])) + eta
+        if hist[-gens] == inf and tolerance < 2.0: #NOTE: not inf <= inf
+            return info(null) # normalized change from inf is 2.0
         if 2.0*(hist[-gens]-hist[-1]) <= diff: return info(doc)
         return info(null)
     _NormalizedChangeOverGeneration.__doc__ = doc
